@@ -68,6 +68,37 @@ def binding_demo(run, lines, kind, field_lo, field_hi, big, small, rejected=()):
     run.cov["binding_demo_corrupted_events"] = len(out)
 
 
+FIRSTUSE = ["d-from16", "d-enc-nrgba64", "d-enc-rgba64", "d-enc-gray16", "d-enc-nrgba", "d-enc-gray", "d-lin-nrgba64",
+            "d-lin-rgba64", "d-lin-gray", "d-linimg", "e-to16", "e-enc-rgba64", "e-enc-nrgba64", "e-enc-translucent", "e-enc-gray16",
+            "e-torgba64", "e-torgba64-half", "e-encimg"]
+
+
+FIRSTUSE_MSG = "%s entry point %s as the first call of a fresh process (GOMAXPROCS %s) returned %s; repeated later %s; per-component functions %s %s"
+
+
+def first_use_events(drive, prefixes, procs=(None, "3")):
+    """One fresh process per (space, entry point, GOMAXPROCS): that entry point is the first call
+    the process makes into the library."""
+    from concurrent.futures import ThreadPoolExecutor
+    jobs = [(sp, e, p) for sp in ("srgb", "adobergb", "prophotorgb", "displayp3") for e in FIRSTUSE
+            if e[0] in prefixes for p in procs]
+
+    def one(j):
+        sp, e, p = j
+        env = dict(vlib.goenv(), GOMAXPROCS=p) if p else vlib.goenv()
+        r = vlib.run([drive, "firstuse", "-space", sp, "-entry", e], timeout=120, env=env, check=False)
+        line = r.stdout.strip().splitlines()[-1] if r.stdout.strip() else ""
+        if not line.startswith("{"):
+            # the process died (a fatal error is not recoverable): that is the observation
+            line = json.dumps({"kind": "firstuse", "space": sp, "entry": e, "panic": True, "first": [], "again": [], "ref": [],
+                               "panic_msg": "process died: " + r.stderr[-300:]})
+        ev = json.loads(line)
+        ev["gomaxprocs"] = p or "default"
+        return json.dumps(ev, separators=(",", ":"))
+    with ThreadPoolExecutor(max_workers=8) as ex:
+        return list(ex.map(one, jobs))
+
+
 def check_c01(run, tier, drive):
     out = os.path.join(vlib.scratch(), "c01")
     os.makedirs(out, exist_ok=True)
@@ -82,6 +113,10 @@ def check_c01(run, tier, drive):
                      timeout=3000, env=dict(vlib.goenv(), GOMAXPROCS=str(procs)))
             f.write(open(os.path.join(out, "h.ndjson")).read())
     run.cov["process_histories"] = ["decode-first/P%d" % vlib.NCPU] + ["%s/P%d" % hp for hp in hist]
+    fu = first_use_events(drive, "d")
+    with open(os.path.join(out, "c01.ndjson"), "a") as f:
+        f.write("\n".join(fu) + "\n")
+    run.cov["first_use_processes"] = len(fu)
     rejects, lines = validate(run, "TraceColour/C01", os.path.join(out, "c01.ndjson"))
     run.cov["traces_validated_against_impl"] = len(lines)
     nexact = sum(1 for l in lines if '"exact":true' in l)
@@ -96,8 +131,11 @@ def check_c01(run, tier, drive):
     for n, pr in rejects[:12]:
         ev = json.loads(lines[n])
         if ev["kind"] == "decode":
-            what = "%s %d-bit code %d decodes to float32 bits %d (previous code: %d, cross %d, entry points %s)" % (
-                ev["space"], ev["depth"], ev["code"], ev["bits"], ev["prev"], ev["cross"], ev["entry"][:3])
+            what = "%s %d-bit code %d decodes to float32 bits %d (previous code: %d, cross %d, entry points %s)%s" % (
+                ev["space"], ev["depth"], ev["code"], ev["bits"], ev["prev"], ev["cross"], ev["entry"],
+                " in process history " + ev["history"] if "history" in ev else "")
+        elif ev["kind"] == "firstuse":
+            what = FIRSTUSE_MSG % (ev["space"], ev["entry"], ev["gomaxprocs"], ev["first"][:8], ev["again"][:8], ev["ref"][:8], ev.get("panic_msg", ""))
         else:
             what = "%s LineariseColor of opaque %d-bit code %d gives %d" % (ev["space"], ev["depth"], ev["code"], ev["out"])
         run.violation({"finding_key": None, "event": ev}, what)
@@ -131,6 +169,10 @@ def check_c02(run, tier, drive):
                      timeout=3000, env=dict(vlib.goenv(), GOMAXPROCS=str(procs)))
             f.write(open(os.path.join(out, "h.ndjson")).read())
     run.cov["process_histories"] = ["encode-first/P%d" % vlib.NCPU] + ["%s/P%d" % hp for hp in hist]
+    fu = first_use_events(drive, "e")
+    with open(os.path.join(out, "c02.ndjson"), "a") as f:
+        f.write("\n".join(fu) + "\n")
+    run.cov["first_use_processes"] = len(fu)
     rejects, lines = validate(run, "TraceColour/C02", os.path.join(out, "c02.ndjson"))
     run.cov["traces_validated_against_impl"] = len(lines)
     kinds = {}
